@@ -8,7 +8,8 @@ Never imports the repository (stdlib `ast` on the source text + qgv.pyexpr).  Wh
   * the denominator expression and the asserted condition of `GaussianPulse._validate_inputs`, the variables whose
     `type(...)` is asserted and the list of accepted types,
   * the functions handed over by `ConstantPulse` / `ConstantPulseNumerical`, the class attributes `Pulse.epsilon`
-    and `Pulse.check_n_points`, and the arguments of the bundled `gaussian_pulse` instance.
+    and `Pulse.check_n_points`, the slack of the sampled monotonicity comparison in `_parametrization_is_valid`
+    (0 on the pinned tree; `self.epsilon**2` after the repair of D17), and the arguments of the bundled `gaussian_pulse`.
 
 TRUSTED MAPPING TABLE (Python callable -> Lean; the only part that is not structural):
     scipy.stats.norm.pdf(x, loc, scale)  ->  normPdf x loc scale   (= gaussianPDFReal loc (scale^2) x)
@@ -227,7 +228,7 @@ class Extractor:
                 raise Unsupported("is_monotone: right-hand side " + ast.unparse(rhs))
         raise Unsupported("_parametrization_is_valid: no is_monotone")
 
-    def super_init_call(self, cls, init, allowed_names):
+    def super_init_call(self, cls, init, _params):
         """the single `super().__init__(...)` call of `init`: returns {pulse, parametrization, perform_checks, use_lookup} as AST"""
         calls = [st for st in init.body if isinstance(st, ast.Expr) and isinstance(st.value, ast.Call)
                  and ast.unparse(st.value.func) in ("super().__init__", f"super({cls}, self).__init__")]
